@@ -5,7 +5,7 @@
 #   lab.sh test <seed-dir>:<ID> ...  apply each seeded change to the lab repo in turn, run the lab's quick check, undo
 #   lab.sh clean                     remove the lab
 set -u
-LAB=/tmp/seedlab
+LAB=${LAB_DIR:-/tmp/seedlab}
 case "${1:-}" in
   sync)
     mkdir -p $LAB
